@@ -79,6 +79,10 @@ CHECKS = {
          "Tie: a tracing shim under every wrapper records the operation trees the real code executed (call-level scripts incl. raising operations and all argument styles; whole job lifecycles on two workers of two connections); recording subscribers record every signal; per operation the recorded signals = Mw.run of the traced tree, by argument identity, with before finished before / after started after the operation, delivered to the own connection only; every scenario re-run without subscribers: same results, exceptions, operations and state (times stripped).",
          "in-memory brokers; subscribers raise Exception (not BaseException); the outcome's independence of subscribers is decided on implementation runs (8 subscriber kinds), the model has no subscriber input. Defect F9 repaired by fix: 1c6a66c.",
          "Lean 4 proof (structural induction over operation trees) + trace-level correspondence + differential runs", "§5 C17"),
+ "C18": ("Lean: resolve_sound (what the resolver returns is the specified value Denotes — the current provider applied to the values of its own sub-dependencies — for EVERY environment: depth, fan-out, sharing), resolve_terminates (any acyclic declaration graph, via any rank function), used_providers_current + override_everywhere (after an override no resolution anywhere calls the replaced function), failing_provider_no_value, provider_failure_follows_retry_rules (depFail = failed, un-entered execution disposed by the C02 table), declarations: posonly_dependency_rejected, plain_without_default_rejected, var_args_rejected, accepted_declaration_callable (an accepted declaration binds, by the CPython call model of C08, every dependency parameter to its resolved value and every other to its default — never a run-time rejection). "
+         "Tie: generated programs (provider/actor source compiled, real inspect-based declaration code): random DAGs with shared sub-dependencies, message dependency leaves, sync/async, failing providers, override sequences changing sub-dependency sets, both converters, payload with/without defaulted entry; the actor's received values and provider call multisets vs Deps.resolve / Val.fns; failing resolutions: actor not entered, retries+1 attempts, dead-lettered; random signatures vs declOk and real call vs callProvider.",
+         "in-memory broker; call counts compared for successful resolutions only (gather does not cancel siblings after a failure). Known finding F16 (PEP 563 string annotations with BasicConverter).",
+         "Lean 4 proof (induction on recursion budget, inductive spec relation) + differential correspondence on generated programs", "§5 C18"),
  "C19": ("Lean theorems (all retry numbers, all timestamps/periods, unbounded Int/Nat) about Sched.backoff/nextDefer/computeNext/overdue; "
          "the model functions are compared with the real retry policy, compute_next_execution_time, _prepare_* and the four is_overdue copies under a pinned clock, "
          "and the Lean predicates are evaluated on the implementation's values.",
